@@ -19,7 +19,7 @@ pub fn def() -> CheckDef {
         meta: CheckMeta {
             id: "C08",
             level: "exploration",
-            rule: "generated buckets (empty, single entry, single leaf, two- and three-level, mixed key/value + sub-bucket; committed and mid-transaction after generated inserts/deletes). Candidate keys = for every present key k: k, k||00, k minus its last byte, k with last byte +1 / -1, plus the empty key, 00 and ff ff ff. Every candidate is used as a seek key on a fresh cursor and on a cursor that has already yielded some entries or was run to its end (all candidates up to 64 entries, a seeded sample of 96 above); every pair of candidates x {included, excluded, unbounded}^2 is used as a range (all pairs for <= 12 entries, 1500 seeded pairs above) through (Bound,Bound) and the std range types, plain / to_buckets() / to_kv_pairs(); next() is called 1-3 more times after the end. Oracles: scan = model entries once ascending then None forever; seek flag = presence, entries after seek = contiguous suffix starting at the key or at its predecessor/successor; range = hand-written filter of the model. An evaluation is one query. Non-trivial = query on a bucket of height >= 2 whose bound key is absent, excluded, or whose bounds are reversed. Distinct = hash of (bucket build, modifications, query); capped at 300k per shard (lower bound when capped).",
+            rule: "generated buckets (empty, single entry, single leaf, two- and three-level, mixed key/value + sub-bucket; committed and mid-transaction after generated inserts/deletes). Candidate keys = for every present key k: k, k||00, k minus its last byte, k with last byte +1 / -1, plus the empty key, 00 and ff ff ff. Every candidate is used as a seek key on a fresh cursor and on a cursor that has already yielded some entries or was run to its end (all candidates up to 64 entries, a seeded sample of 96 above); every pair of candidates x {included, excluded, unbounded}^2 is used as a range (all pairs for <= 12 entries, 1500 seeded pairs above) through (Bound,Bound) and the std range types, plain / to_buckets() / to_kv_pairs(); next() is called 1-3 more times after the end; re-used cursors: one cursor seeked to every stored key in ascending order (0-2 entries read in between), in descending order, and along seeded jumps over the candidates, never drained. Oracles: scan = model entries once ascending then None forever; seek flag = presence, entries after seek = contiguous suffix starting at the key or at its predecessor/successor; range = hand-written filter of the model. An evaluation is one query. Non-trivial = query on a bucket of height >= 2 whose bound key is absent, excluded, or whose bounds are reversed, or a re-used-cursor chain. Distinct = hash of (bucket build, modifications, query); capped at 300k per shard (lower bound when capped).",
             assumptions: &["seek(absent) may position at the predecessor or the successor (the existing test cursor_seek pins the predecessor)"],
         },
         shard,
@@ -48,6 +48,8 @@ pub enum Query {
     Scan { extra: u8 },
     Seek { key: Vec<u8>, extra: u8, #[serde(default)] pre: u8 },
     Range { lo: QBound, hi: QBound, mode: u8, extra: u8 },
+    /// one cursor re-seeked to each key in turn without being drained, `takes[i]` entries read in between
+    Chain { keys: Vec<Vec<u8>>, takes: Vec<u8> },
 }
 
 #[derive(Serialize, Deserialize, Clone, Debug)]
@@ -91,12 +93,14 @@ pub fn run_query(b: &jammdb::Bucket, m: &MBucket, q: &Query, what: &str) -> Resu
         Query::Scan { extra } => check_scan(b, m, *extra, what),
         Query::Seek { key, extra, pre } => check_seek_pre(b, m, key, *extra, *pre, what),
         Query::Range { lo, hi, mode, extra } => check_range(b, m, &lo.to_bound(), &hi.to_bound(), *mode, *extra, what),
+        Query::Chain { keys, takes } => check_seek_chain(b, m, keys, takes, what),
     }
 }
 
 fn query_nontrivial(m: &MBucket, q: &Query) -> bool {
     match q {
         Query::Scan { .. } => false,
+        Query::Chain { keys, .. } => keys.len() >= 2,
         Query::Seek { key, .. } => !m.entries.contains_key(key),
         Query::Range { lo, hi, .. } => {
             let absent = |b: &QBound| match b {
@@ -203,6 +207,23 @@ pub fn run_case(case: &C08Case, path: &std::path::Path, enumerate_budget: (usize
                 let k = cands[rng.below(cands.len() as u64) as usize].clone();
                 let pre = match rng.below(4) { 0 => 0, 1 => 200, _ => 1 + rng.below(5) as u8 };
                 do_q(Query::Seek { key: k, extra: (rng.below(3)) as u8, pre }, &mut out)?;
+            }
+        }
+        // re-used cursors: every stored key in ascending order (each seek leaves the cursor where
+        // the next one finds it: on every leaf, incl. the last leaf of every subtree), then
+        // descending, then seeded jumps over the candidate keys
+        if m.entries.len() >= 2 {
+            let all: Vec<Vec<u8>> = m.entries.keys().cloned().collect();
+            do_q(Query::Chain { keys: all.clone(), takes: vec![0] }, &mut out)?;
+            do_q(Query::Chain { keys: all.clone(), takes: vec![1, 0, 2] }, &mut out)?;
+            let mut rev = all.clone();
+            rev.reverse();
+            do_q(Query::Chain { keys: rev, takes: vec![0, 1] }, &mut out)?;
+            for _ in 0..3 {
+                let n = 4 + rng.below(12) as usize;
+                let keys: Vec<Vec<u8>> = (0..n).map(|_| cands[rng.below(cands.len() as u64) as usize].clone()).collect();
+                let takes: Vec<u8> = (0..n).map(|_| rng.below(4) as u8).collect();
+                do_q(Query::Chain { keys, takes }, &mut out)?;
             }
         }
         // ranges
